@@ -70,6 +70,18 @@ func Classify(r any) string {
 			cls = ECrash
 		case errors.MemoryMeteringError:
 			cls = ELimitMem
+		default:
+			// error types of package values (values.DivisionByZeroError, ...) by name
+			switch name := fmt.Sprintf("%T", e); {
+			case strings.HasSuffix(name, ".DivisionByZeroError"):
+				cls = EDivZero
+			case strings.HasSuffix(name, ".OverflowError"):
+				cls = EOverflow
+			case strings.HasSuffix(name, ".UnderflowError"):
+				cls = EUnderflow
+			case strings.HasSuffix(name, ".NegativeShiftError"):
+				cls = ENegShift
+			}
 		}
 		return cls != ""
 	})
